@@ -141,7 +141,9 @@ func (c *Ctx) rulesC09x() {
 			c.undecided("C09.ord: " + key + ": value is " + render(w.Val))
 			continue
 		}
-		if c.callMatches(&call.Call, pm+":StatesShared") || c.callMatches(&call.Call, pm+":StatesDiff") {
+		if c.callMatches(&call.Call, pm+":StatesShared") || c.callMatches(&call.Call, pm+":StatesDiff") ||
+			c.callMatches(&call.Call, pm+":S.Shared") || c.callMatches(&call.Call, pm+":S.Sub") {
+			// (for the S methods the receiver is argument 0: the result keeps ITS order)
 			c.check(isSrc(call.Call.Args[0]), "C09.ord", key, w.Instr.Pos(),
 				"the filter's first argument ("+render(call.Call.Args[0])+") is not the source-ordered list: the result follows the order of the client's allow-list, while the client maps pushed positions by source order")
 			continue
